@@ -299,6 +299,15 @@ def run_case(case):
         if got != ['pending'] and len(calls) != 1:
             # done callbacks of kiwi futures run synchronously; asyncio ones need one more loop iteration (done in _drive)
             viol.append(V('callback-count', 'callback-count:%s' % adapter, '%s: done-callback fired %d times' % (where, len(calls))))
+    except (NameError, TypeError, AttributeError, AssertionError, RuntimeError) as exc:
+        # the adapter itself broke down (it raised instead of handing a future back / carrying the outcome over)
+        import traceback
+        frames = traceback.extract_tb(exc.__traceback__)
+        if not any('/plumpy/' in f.filename for f in frames):
+            raise  # a fault of the harness, not of the adapter
+        got = ['raised', type(exc).__name__]
+        viol.append(V('adapter-raised', 'adapter-raised:%s:%s' % (adapter, type(exc).__name__), '%s:depth%d: the adapter raised %r (outcome %s, order %s)' % (
+            adapter, depth, exc, oc, order)))
     finally:
         try:
             loop.run_until_complete(asyncio.sleep(0))
